@@ -690,6 +690,11 @@ def run(ctx):
                 groups[name].append(b)
     for name, bad in groups.items():
         ctx.negative_controls("ModelFitTrace", "Trace.cfg", bad, name=name)
+    # ---------------- phase 2: the training loop's own events (guarded hooks) against HookTrace.tla ----------------
+    from drivers import hooktrace
+    picks = [c for c in cases if c["n"] > 6][:6] + [c for c in cases if c["n"] <= 6][:6]
+    hooktrace.hook_phase(ctx, "C12", calls=[("driver case %d" % i, (lambda c=c: run_case(c))) for i, c in enumerate(picks)],
+                         repo_select=["tests/unit_tests/test_model.py"] if ctx.quick else None, whole_suite=not ctx.quick)
     ctx.assume("the estimator handed to Model is deterministic and row-wise (IntEst) or a convex scikit-learn learner "
                "run to tol=1e-10 (LogisticRegression, LinearSVC(dual=False)); two fits of a real learner on the same "
                "<<row, label>> pairs in different row orders are compared as round(1e6*score) with epsilon = %d "
